@@ -198,6 +198,82 @@ impl Func {
     }
 }
 
+/// Applies a unary op to a buffer with `functional::simd_map` on an explicitly
+/// chosen ISA - exactly what `SimdUnaryOp::map_mut` does after `dispatch` has
+/// picked the ISA. Needs no process-wide state, so one reference evaluation
+/// can be shared by all ISAs.
+struct DirectMap<'a> {
+    func: Func,
+    buf: &'a mut [f32],
+}
+
+#[inline(always)]
+fn map_with<I: rten_simd::Isa, Op: SimdUnaryOp<f32>>(isa: I, op: Op, buf: &mut [f32]) {
+    rten_simd::functional::simd_map(
+        isa.f32(),
+        buf,
+        #[inline(always)]
+        |x| op.eval(isa, x),
+    );
+}
+
+impl SimdOp for DirectMap<'_> {
+    type Output = ();
+    #[inline(always)]
+    fn eval<I: rten_simd::Isa>(self, isa: I) {
+        use rten_vecmath as vm;
+        match self.func {
+            Func::Exp => map_with(isa, vm::Exp {}, self.buf),
+            Func::Sigmoid => map_with(isa, vm::Sigmoid {}, self.buf),
+            Func::Tanh => map_with(isa, vm::Tanh {}, self.buf),
+            Func::Erf => map_with(isa, vm::Erf {}, self.buf),
+            Func::Sin => map_with(isa, vm::Sin::new(), self.buf),
+            Func::Cos => map_with(isa, vm::Cos::new(), self.buf),
+            Func::Gelu => map_with(isa, vm::Gelu {}, self.buf),
+            Func::ApproxGelu => map_with(isa, vm::ApproxGelu {}, self.buf),
+            Func::Silu => map_with(isa, vm::Silu {}, self.buf),
+            Func::Swish => map_with(isa, vm::Swish { alpha: SWISH_ALPHA }, self.buf),
+            Func::Elu => map_with(isa, vm::Elu { alpha: ELU_ALPHA }, self.buf),
+        }
+    }
+}
+
+// same target features as rten_simd::dispatch enables for each ISA
+#[target_feature(enable = "avx512f")]
+#[target_feature(enable = "avx512vl")]
+#[target_feature(enable = "avx512bw")]
+#[target_feature(enable = "avx512dq")]
+#[target_feature(enable = "f16c")]
+unsafe fn run_avx512<Op: SimdOp>(isa: impl rten_simd::Isa, op: Op) -> Op::Output {
+    op.eval(isa)
+}
+
+#[target_feature(enable = "avx2")]
+#[target_feature(enable = "avx")]
+#[target_feature(enable = "fma")]
+#[target_feature(enable = "f16c")]
+unsafe fn run_avx2<Op: SimdOp>(isa: impl rten_simd::Isa, op: Op) -> Op::Output {
+    op.eval(isa)
+}
+
+impl Func {
+    /// `lanes` = f32 lanes of the ISA: 16 AVX-512, 8 AVX2, 4 generic.
+    fn apply_direct(self, lanes: usize, buf: &mut [f32]) {
+        let op = DirectMap { func: self, buf };
+        match lanes {
+            16 => match rten_simd::isa::Avx512Isa::new() {
+                Some(isa) => unsafe { run_avx512(isa, op) },
+                None => vp_core::machinery_error("AVX-512 not available"),
+            },
+            8 => match rten_simd::isa::Avx2Isa::new() {
+                Some(isa) => unsafe { run_avx2(isa, op) },
+                None => vp_core::machinery_error("AVX2 not available"),
+            },
+            _ => op.eval(rten_simd::isa::GenericIsa::new()),
+        }
+    }
+}
+
 #[derive(Clone, Copy, Debug, PartialEq, Eq, PartialOrd, Ord)]
 enum Kind {
     Bound,
@@ -330,9 +406,24 @@ impl Stats {
 
 const CHUNK: usize = 1 << 14;
 
+/// How the op is applied: through the real `dispatch` (whatever ISA is
+/// currently forced) or directly on the ISA with the given lane count.
+#[derive(Clone, Copy, Debug, PartialEq)]
+enum Via {
+    Dispatch,
+    Direct(usize),
+}
+
 fn eval_segment(func: Func, contract: Contract, seg: Segment, observe_domain_only: bool, skip_lattice: bool) -> Stats {
-    let mut st = Stats::default();
+    eval_segment_multi(func, contract, seg, observe_domain_only, skip_lattice, &[Via::Dispatch]).remove(0)
+}
+
+/// Evaluate one segment on several ISAs; the reference value of each input is
+/// computed once and shared.
+fn eval_segment_multi(func: Func, contract: Contract, seg: Segment, observe_domain_only: bool, skip_lattice: bool, vias: &[Via]) -> Vec<Stats> {
+    let mut stats: Vec<Stats> = vias.iter().map(|_| Stats::default()).collect();
     let mut input = vec![0f32; CHUNK];
+    let mut expected = vec![0f32; CHUNK];
     let mut actual = vec![0f32; CHUNK];
     let bound = match contract {
         Contract::Ulp(b) | Contract::Abs(b) | Contract::AbsThenExact(b) | Contract::Observe(_, b) => b,
@@ -357,53 +448,71 @@ fn eval_segment(func: Func, contract: Contract, seg: Segment, observe_domain_onl
         if m == 0 {
             continue;
         }
-        actual[..m].copy_from_slice(&input[..m]);
-        func.apply(&mut actual[..m]);
         for i in 0..m {
-            let x = input[i];
-            let a = actual[i];
-            let e = func.reference(x);
-            let (err, mut kind) = judge(func, contract, x, a, e);
-            if kind == Some(Kind::Bound) && !matches!(contract, Contract::Observe(..)) && func.within_bound_of_truth(x, a) {
-                // exceeds the bound only relative to this image's f32 libm
-                if st.libm_artefacts == 0 {
-                    st.libm_artefact_example = x.to_bits();
+            expected[i] = func.reference(input[i]);
+        }
+        for (vi, via) in vias.iter().enumerate() {
+            let st = &mut stats[vi];
+            actual[..m].copy_from_slice(&input[..m]);
+            match via {
+                Via::Dispatch => func.apply(&mut actual[..m]),
+                Via::Direct(lanes) => func.apply_direct(*lanes, &mut actual[..m]),
+            }
+            for i in 0..m {
+                let x = input[i];
+                let a = actual[i];
+                let e = expected[i];
+                st.evals += 1;
+                if a.to_bits() == e.to_bits() {
+                    // bit-identical to the reference: nothing to judge
+                    if e.is_finite() {
+                        st.numeric += 1;
+                    }
+                    st.exact += 1;
+                    st.hist[0] += 1;
+                    continue;
                 }
-                st.libm_artefacts += 1;
-                kind = None;
-            }
-            st.evals += 1;
-            if e.is_finite() {
-                st.numeric += 1;
-            }
-            if err == 0.0 && kind.is_none() {
-                st.exact += 1;
-                st.hist[0] += 1;
-            } else {
-                let r = err / bound;
-                let slot = if r <= 0.25 {
-                    1
-                } else if r <= 0.5 {
-                    2
-                } else if r <= 1.0 {
-                    3
+                let (err, mut kind) = judge(func, contract, x, a, e);
+                if kind == Some(Kind::Bound) && !matches!(contract, Contract::Observe(..)) && func.within_bound_of_truth(x, a) {
+                    // exceeds the bound only relative to this image's f32 libm
+                    if st.libm_artefacts == 0 {
+                        st.libm_artefact_example = x.to_bits();
+                    }
+                    st.libm_artefacts += 1;
+                    kind = None;
+                }
+                if e.is_finite() {
+                    st.numeric += 1;
+                }
+                if err == 0.0 && kind.is_none() {
+                    st.exact += 1;
+                    st.hist[0] += 1;
                 } else {
-                    4
-                };
-                st.hist[slot] += 1;
-                if err.is_finite() && err > st.max_err {
-                    st.max_err = err;
-                    st.argmax_bits = x.to_bits();
+                    let r = err / bound;
+                    let slot = if r <= 0.25 {
+                        1
+                    } else if r <= 0.5 {
+                        2
+                    } else if r <= 1.0 {
+                        3
+                    } else {
+                        4
+                    };
+                    st.hist[slot] += 1;
+                    if err.is_finite() && err > st.max_err {
+                        st.max_err = err;
+                        st.argmax_bits = x.to_bits();
+                    }
                 }
-            }
-            if let Some(k) = kind {
-                st.violations += 1;
-                *st.viol_by_kind.entry(k).or_insert(0) += 1;
-                st.first.entry(k).or_insert((x.to_bits(), a, e, err));
+                if let Some(k) = kind {
+                    st.violations += 1;
+                    *st.viol_by_kind.entry(k).or_insert(0) += 1;
+                    st.first.entry(k).or_insert((x.to_bits(), a, e, err));
+                }
             }
         }
     }
-    st
+    stats
 }
 
 /// Cut-offs used by the implementations (and a few classic constants); the
@@ -506,6 +615,19 @@ fn run_func(func: Func, segs: &[Segment], observe_only_domain: bool, skip_lattic
     let mut total = Stats::default();
     for p in &parts {
         total.merge(p);
+    }
+    total
+}
+
+fn run_func_multi(func: Func, segs: &[Segment], observe_only_domain: bool, skip_lattice: bool, vias: &[Via]) -> Vec<Stats> {
+    let contract = func.contract();
+    let items = split(segs, 1 << 21);
+    let parts = vp_core::par::map(items.len(), |i| eval_segment_multi(func, contract, items[i], observe_only_domain, skip_lattice, vias));
+    let mut total: Vec<Stats> = vias.iter().map(|_| Stats::default()).collect();
+    for p in &parts {
+        for (t, s) in total.iter_mut().zip(p) {
+            t.merge(s);
+        }
     }
     total
 }
@@ -895,37 +1017,53 @@ pub fn run(ctx: Ctx) -> ! {
         ctx.machinery("C19 oracle self-check failed");
     }
 
-    for isa in &isas {
-        util::force(isa);
-        for func in VERDICT_FUNCS {
-            let mut st = run_func(func, main_segs, false, !thorough);
-            if matches!(func, Func::Sin | Func::Cos) {
-                let iso = run_func(func, &sincos_isolated_segments(), false, false);
-                st.merge(&iso);
+    // Consistency of the two ways of applying an op: through the real
+    // `dispatch` with the ISA forced, and directly with `simd_map` on the ISA
+    // (used below so that one reference evaluation serves all ISAs).
+    {
+        let probe = Segment { start: 0x0000_0040, count: 1 << 20, stride: 4096 };
+        for isa in &isas {
+            util::force(isa);
+            for func in VERDICT_FUNCS.iter().chain(OBSERVED_FUNCS.iter()) {
+                let xs: Vec<f32> = (0..probe.count as u32).map(|i| f32::from_bits(probe.start.wrapping_add(i.wrapping_mul(probe.stride)))).collect();
+                let mut a = xs.clone();
+                let mut b = xs.clone();
+                func.apply(&mut a);
+                func.apply_direct(isa.f32_lanes, &mut b);
+                if let Some(i) = (0..xs.len()).find(|&i| a[i].to_bits() != b[i].to_bits() && !(a[i].is_nan() && b[i].is_nan())) {
+                    ctx.machinery(&format!("direct simd_map and dispatch disagree for {} on {} at {:e}: {:e} vs {:e}", func.name(), isa.name, xs[i], a[i], b[i]));
+                }
             }
-            // explicit special-value pass (also inside the main box; kept
-            // separate so that the quick tier provably contains them)
+        }
+        util::unforce();
+    }
+
+    let vias: Vec<Via> = isas.iter().map(|i| Via::Direct(i.f32_lanes)).collect();
+    for func in VERDICT_FUNCS {
+        let mut all = run_func_multi(func, main_segs, false, !thorough, &vias);
+        if matches!(func, Func::Sin | Func::Cos) {
+            let iso = run_func_multi(func, &sincos_isolated_segments(), false, false, &vias);
+            for (t, s) in all.iter_mut().zip(&iso) {
+                t.merge(s);
+            }
+        }
+        for (isa, mut st) in isas.iter().zip(all) {
+            util::force(isa);
+            // explicit special-value pass through the real dispatch (also inside
+            // the main box; kept separate so that the quick tier provably contains them)
             for bits in special_inputs() {
                 let sp = eval_segment(func, func.contract(), Segment { start: bits, count: 1, stride: 1 }, false, false);
                 // do not double count violations already found in the main box
                 let mut sp2 = sp.clone();
-                if thorough {
-                    sp2.violations = 0;
-                    sp2.first.clear();
-                    sp2.viol_by_kind.clear();
-                } else {
-                    // quick box contains the binade-boundary windows, which
-                    // include all of these except the NaN payloads/subnormal
-                    // interior; clear duplicates conservatively by re-checking
-                    let in_box = quick.iter().any(|s| {
+                let in_box = thorough
+                    || quick.iter().any(|s| {
                         let d = bits.wrapping_sub(s.start);
                         bits >= s.start && (d % s.stride == 0) && ((d / s.stride) as u64) < s.count
                     });
-                    if in_box {
-                        sp2.violations = 0;
-                        sp2.first.clear();
-                        sp2.viol_by_kind.clear();
-                    }
+                if in_box {
+                    sp2.violations = 0;
+                    sp2.first.clear();
+                    sp2.viol_by_kind.clear();
                 }
                 st.merge(&sp2);
             }
@@ -974,6 +1112,9 @@ pub fn run(ctx: Ctx) -> ! {
                 func.name(), isa.name, st.evals, st.max_err, st.argmax_bits, st.violations, ctx.elapsed_s()
             );
         }
+    }
+    for isa in &isas {
+        util::force(isa);
         for func in OBSERVED_FUNCS {
             let st = run_func(func, &lattice, true, false);
             evaluations += st.evals;
@@ -1044,7 +1185,7 @@ pub fn run(ctx: Ctx) -> ! {
             "reference functions are those of this image: glibc expf/tanhf/sinf/cosf through Rust std, libm crate 0.2 erff".into(),
             "ULP metric is rten-vecmath/src/ulp.rs re-implemented, with ulp(0) = smallest subnormal (the crate's helper uses f32::MIN there)".into(),
             "Gelu/ApproxGelu/Silu/Swish/Elu and LogSoftmax are measured and reported as observations only (not named in the property statement)".into(),
-            "ISA forcing through the rten_simd::verif::force_isa hook; lane count probed through the real dispatch()".into(),
+            "the exhaustive sweep applies each op with functional::simd_map + SimdUnaryOp::eval on the explicit ISA types (so that one reference evaluation serves all ISAs); its agreement with the real dispatch()+force_isa path is checked on 2^20 inputs per function per ISA; special values, softmax and the observed-only functions go through dispatch()".into(),
         ],
     );
 }
